@@ -611,6 +611,12 @@ class VariantBase(productmd.common.MetadataBase):
 
         variant.validate()
         variant_id = variant_id or variant.id
+        # a variant is filed under its ID; a top-level one may be filed under its UID instead ($variant-optional)
+        if variant_id != variant.id and (variant.parent is not None or variant_id != variant.uid):
+            raise ValueError("Variant ID doesn't match: '%s' vs '%s'" % (variant.id, variant_id))
+        for key in self.variants:
+            if self.variants[key] is variant and key != variant_id:
+                raise ValueError("Variant '%s' already added as '%s'" % (variant.uid, key))
         # UIDs are unique in the whole tree ($variant-optional on top-level vs. an optional child of $variant);
         # a variant brings its own children along
         root = getattr(self._metadata, "variants", None)
